@@ -41,17 +41,17 @@ package ctxio
 
 // ---- Write
 
-//@ func (*Conn).Write$1 {C16 C17 | safety: C10}
+//@ func (*Conn).Write$1 {C02 C03 C16 C17 | safety: C10}
 //@   requires [nn] *c != nil && (*c).conn != nil && *ch != nil
 //@   modifies gWrCalls, gSends, gSentN, gSentErr
 //@   ghostset at send#1 : gSends = gSends + 1
 //@   ghostset at send#1 : gSentN = sent.n
 //@   ghostset at send#1 : gSentErr = sent.err
-//@   ensures [once C16] gSends == old(gSends) + 1 && gWrCalls == old(gWrCalls) + 1
-//@   assert [direction C17] at call(Write)#1 : arg0 == (*c).conn && arg1 == *buf
+//@   ensures [once C02 C03 C16] gSends == old(gSends) + 1 && gWrCalls == old(gWrCalls) + 1
+//@   assert [direction C02 C03 C17] at call(Write)#1 : arg0 == (*c).conn && arg1 == *buf
 //@   assert [chan C16] at send#1 : chan == *ch
 
-//@ func (*Conn).Write {C16 C17 | safety: C10}
+//@ func (*Conn).Write {C02 C03 C16 C17 | safety: C10}
 //@   requires [nn] c != nil && c.conn != nil && ctx != nil
 //@   modifies dlWpast, dlWzero, dlWctx, helper, gDlFail, gCancelled, gCtxErr, gWrCalls, gSends, gSentN, gSentErr
 //@   ghostset at call(SetWriteDeadline)#1 : gDlFail = (res0 != nil)
@@ -71,7 +71,7 @@ package ctxio
 //@   assert [unblock C17] at recv#1 : dlWpast[c.conn] && gCancelled
 //@   ensures [joined C16 C17] !gDlFail ==> helper != 1
 //@   ensures [reset C17] gCancelled && !gDlFail ==> dlWzero[c.conn] && !dlWpast[c.conn] && result1 == gCtxErr && result0 == 0
-//@   ensures [live C17] !gCancelled && !gDlFail ==> result0 == gSentN && result1 == gSentErr && gWrCalls == old(gWrCalls) + 1
+//@   ensures [live C02 C03 C17] !gCancelled && !gDlFail ==> result0 == gSentN && result1 == gSentErr && gWrCalls == old(gWrCalls) + 1
 //@   ensures [fail C17] gDlFail ==> result0 == 0 && result1 != nil
 
 // ---- Read
